@@ -59,7 +59,8 @@ def s_backward_thorough():
 
 def _diff_key(sub, d, tree):
     if d["kind"] == "null-as-empty":
-        return [sub, "null-as-empty"]
+        # where the null lived decides the root cause: collections write nulls through to_binary(None)
+        return [sub, "null-as-empty", "collection" if d["parent"] in ("list", "set", "map") else str(d["parent"])]
     if d["kind"] == "empty-as-null":
         return [sub, "empty-as-null", tree["t"] if tree["t"] in ("reversed", "frozen") and not d["path"] else "inner"]
     return [sub, d["leaf"], d["kind"]]
